@@ -49,5 +49,12 @@ def _deq_some(o):
     d = o.disc
     return zb(d == 1) if isz(d) else z3.BoolVal(d == 1)
 
+def run_all(ck):
+    run(ck)
+    from . import ikentry
+    mirdump.load(REPO); ensure_replay()
+    jobs = [('checks.ikentry', 'check_pipeline', ('inverse_continuing', dict(n=n, dof=6, cons=c, prev='finite', **({'weight': 0} if c == 'sym' else {})), ('C05',))) for n in ((2,) if ck.tier == 'quick' else (1, 2, 3)) for c in ('none', 'sym')]
+    ck.parallel(jobs)
+
 if __name__ == '__main__':
-    main(run, 'C05')
+    main(run_all, 'C05')
